@@ -156,6 +156,8 @@ class EvalRaise(Exception):
     def __init__(self, exc_name, msg=""):
         super().__init__(f"{exc_name}: {msg}")
         self.exc_name = exc_name
+        self.msg = msg
+        self.value = None  # the model object bound by `except ... as name`, when the rule supplies one
 
 
 class _Return(Exception):
@@ -180,6 +182,7 @@ class Scenario:
     recorded: List[Tuple] = field(default_factory=list)  # for SDK gate calls (toolbox)
     overrides: Dict[str, Any] = field(default_factory=dict)  # repo function name -> checker-side semantics
     externals: Dict[str, Any] = field(default_factory=dict)  # dotted library name -> checker-side semantics for this scenario
+    plain_registers: bool = False  # Register(...) builds an ordinary object (name, index) instead of a symbolic transpiler register
 
 
 class Interp:
@@ -315,7 +318,9 @@ class Interp:
                     names = []
                     if h.type is not None:
                         names = [dotted(x).split(".")[-1] for x in (h.type.elts if isinstance(h.type, ast.Tuple) else [h.type]) if dotted(x)]
-                    if h.type is None or e.exc_name in names or "Exception" in names:
+                    if h.type is None or e.exc_name in names or "Exception" in names or "BaseException" in names:
+                        if h.name:
+                            env[h.name] = getattr(e, "value", None) or Obj(None, {"__traceback__": None, "exc_name": e.exc_name, "args": (e.msg,)}, "exception")
                         self.block(h.body, env, m)
                         break
                 else:
@@ -332,26 +337,155 @@ class Interp:
             if not self.truth(self.eval(st.test, env, m)):
                 raise EvalRaise("AssertionError", src(st.test)[:80])
             return
+        if isinstance(st, ast.Delete):
+            for t in st.targets:
+                if isinstance(t, ast.Subscript):
+                    cont = self.eval(t.value, env, m)
+                    key = self.eval(t.slice, env, m)
+                    try:
+                        del cont[self._hashable(key) if isinstance(cont, dict) else key]
+                    except (KeyError, IndexError) as ex_:
+                        raise EvalRaise(type(ex_).__name__, src(t)[:60])
+                elif isinstance(t, ast.Name):
+                    env.pop(t.id, None)
+                else:
+                    raise AnalysisError(f"circuit evaluation: del {src(t)[:40]}")
+            return
         if isinstance(st, ast.Pass):
             return
         if isinstance(st, (ast.FunctionDef, ast.AsyncFunctionDef)):
             env[st.name] = ("closure", st, env, m)
             return
         if isinstance(st, ast.With):
-            for it in st.items:
-                v = self.eval(it.context_expr, env, m)
-                if it.optional_vars is not None:
-                    self.assign(it.optional_vars, v, env, m)
-            self.block(st.body, env, m)
+            self._with(st, 0, env, m)
             return
         raise AnalysisError(f"circuit evaluation: statement form {type(st).__name__} outside the enumerated idioms: {src(st)[:60]}")
+
+    def _ctx_function(self, call, env, m):
+        """the repository function behind `with f(...)` when it is a @contextmanager generator, with its bound arguments"""
+        if not isinstance(call, ast.Call):
+            return None
+        try:
+            f = self.eval(call.func, env, m)
+        except AnalysisError:
+            return None
+        target = None
+        if isinstance(f, tuple) and f and f[0] == "func":
+            target = (f[1], f[2], None)
+        elif isinstance(f, tuple) and f and f[0] == "boundmethod" and isinstance(f[1], Obj) and f[1].cls is not None:
+            if f[1].kind == "self" and (f[2] in getattr(self.sc, "method_overrides", {}) or f[2] in self.sc.overrides):
+                return None
+            r = self.repo.lookup(f[1].cls, f[2])
+            if r is not None:
+                target = (r[0].module, r[1], f[1])
+        if target is None:
+            return None
+        decs = {(dotted(d) or "").split(".")[-1] for d in target[1].decorator_list}
+        if "contextmanager" not in decs:
+            return None
+        return target
+
+    def _with(self, st, k, env, m):
+        """with-items from the k-th on, then the body.  A @contextmanager function of the repository is run up to its `yield`, the
+        body follows, then the rest of the function: on normal exit and when the body leaves by return / break / continue; when the
+        body raises, only the `finally` blocks around the yield run (the exception is thrown in at the yield)."""
+        if k == len(st.items):
+            self.block(st.body, env, m)
+            return
+        it = st.items[k]
+        tgt = self._ctx_function(it.context_expr, env, m)
+        if tgt is None:
+            v = self.eval(it.context_expr, env, m)
+            if it.optional_vars is not None:
+                self.assign(it.optional_vars, v, env, m)
+            self._with(st, k + 1, env, m)
+            return
+        cm, cfn, cself = tgt
+        call = it.context_expr
+        args = []
+        for a in call.args:
+            if isinstance(a, ast.Starred):
+                args.extend(self.eval(a.value, env, m))
+            else:
+                args.append(self.eval(a, env, m))
+        kwargs = {kw.arg: self.eval(kw.value, env, m) for kw in call.keywords if kw.arg is not None}
+        # bind parameters as call_function does
+        cenv: Dict[str, Any] = {}
+        a_ = cfn.args
+        pos = [x.arg for x in a_.posonlyargs + a_.args]
+        if cself is not None and pos and pos[0] in ("self", "cls"):
+            cenv[pos[0]] = cself
+            pos = pos[1:]
+        for p_, v_ in zip(pos, args):
+            cenv[p_] = v_
+        cenv.update(kwargs)
+        allp = [x.arg for x in (a_.posonlyargs + a_.args)]
+        for p_, d_ in zip(allp[len(allp) - len(a_.defaults):], a_.defaults):
+            if p_ not in cenv:
+                cenv[p_] = self.eval(d_, cenv, cm)
+        for p_, d_ in zip(a_.kwonlyargs, a_.kw_defaults):
+            if p_.arg not in cenv and d_ is not None:
+                cenv[p_.arg] = self.eval(d_, cenv, cm)
+        body = [s_ for s_ in cfn.body if not (isinstance(s_, ast.Expr) and isinstance(s_.value, ast.Constant) and isinstance(s_.value.value, str))]
+
+        def is_yield(s_):
+            return isinstance(s_, ast.Expr) and isinstance(s_.value, ast.Yield)
+
+        ys = [i for i, s_ in enumerate(body) if is_yield(s_)]
+        fin = None
+        if not ys:
+            # try: PRE' ; yield ; POST'  finally: F   at the top level
+            ts = [i for i, s_ in enumerate(body) if isinstance(s_, ast.Try) and not s_.handlers and any(is_yield(x) for x in s_.body)]
+            if len(ts) != 1:
+                raise AnalysisError(f"circuit evaluation: context manager {cfn.name} has no top-level yield")
+            t_ = body[ts[0]]
+            j = next(i for i, x in enumerate(t_.body) if is_yield(x))
+            pre, ystmt, post, fin = body[:ts[0]] + t_.body[:j], t_.body[j], t_.body[j + 1:], (t_.finalbody, body[ts[0] + 1:])
+        else:
+            if len(ys) != 1:
+                raise AnalysisError(f"circuit evaluation: context manager {cfn.name} yields more than once")
+            pre, ystmt, post = body[:ys[0]], body[ys[0]], body[ys[0] + 1:]
+        if sum(1 for n in ast.walk(cfn) if isinstance(n, (ast.Yield, ast.YieldFrom))) != 1:
+            raise AnalysisError(f"circuit evaluation: context manager {cfn.name} yields more than once")
+        self.block(pre, cenv, cm)
+        yv = self.eval(ystmt.value.value, cenv, cm) if ystmt.value.value is not None else None
+        if it.optional_vars is not None:
+            self.assign(it.optional_vars, yv, env, m)
+        try:
+            self._with(st, k + 1, env, m)
+        except EvalRaise:
+            if fin is not None:
+                self.block(fin[0], cenv, cm)
+            raise
+        except (_Return, _Break, _Continue):
+            self.block(post, cenv, cm)
+            if fin is not None:
+                self.block(fin[0], cenv, cm)
+                self.block(fin[1], cenv, cm)
+            raise
+        self.block(post, cenv, cm)
+        if fin is not None:
+            self.block(fin[0], cenv, cm)
+            self.block(fin[1], cenv, cm)
 
     def assign(self, t, v, env, m):
         if isinstance(t, ast.Name):
             env[t.id] = v
         elif isinstance(t, (ast.Tuple, ast.List)):
             vs = list(v)
-            if len(vs) != len(t.elts):
+            stars = [k for k, e in enumerate(t.elts) if isinstance(e, ast.Starred)]
+            if len(stars) == 1:
+                k = stars[0]
+                after = len(t.elts) - k - 1
+                if len(vs) < len(t.elts) - 1:
+                    raise EvalRaise("ValueError", "unpack")
+                for e, x in zip(t.elts[:k], vs[:k]):
+                    self.assign(e, x, env, m)
+                self.assign(t.elts[k].value, vs[k:len(vs) - after], env, m)
+                for e, x in zip(t.elts[k + 1:], vs[len(vs) - after:]):
+                    self.assign(e, x, env, m)
+                return
+            if stars or len(vs) != len(t.elts):
                 raise EvalRaise("ValueError", "unpack")
             for e, x in zip(t.elts, vs):
                 self.assign(e, x, env, m)
@@ -465,17 +599,34 @@ class Interp:
                 else:
                     return "<fstring>"
             return "".join(parts)
-        if isinstance(e, (ast.ListComp, ast.GeneratorExp)):
-            if len(e.generators) != 1:
-                raise AnalysisError("nested comprehension")
-            g = e.generators[0]
-            out = []
-            for item in self.eval(g.iter, env, m):
-                env2 = dict(env)
-                self.assign(g.target, item, env2, m)
-                if all(self.truth(self.eval(c, env2, m)) for c in g.ifs):
-                    out.append(self.eval(e.elt, env2, m))
-            return out
+        if isinstance(e, (ast.ListComp, ast.GeneratorExp, ast.SetComp, ast.DictComp)):
+            rows: List[Any] = []
+
+            def gen(k, env_):
+                if k == len(e.generators):
+                    rows.append((self.eval(e.key, env_, m), self.eval(e.value, env_, m)) if isinstance(e, ast.DictComp) else self.eval(e.elt, env_, m))
+                    return
+                g = e.generators[k]
+                if g.is_async:
+                    raise AnalysisError("circuit evaluation: async comprehension")
+                for item in self.eval(g.iter, env_, m):
+                    env2 = dict(env_)
+                    self.assign(g.target, item, env2, m)
+                    if all(self.truth(self.eval(c, env2, m)) for c in g.ifs):
+                        gen(k + 1, env2)
+            gen(0, env)
+            if isinstance(e, ast.DictComp):
+                return {self._hashable(k_): v_ for k_, v_ in rows}
+            if isinstance(e, ast.SetComp):
+                out_: List[Any] = []
+                for r_ in rows:
+                    if not any(self._eq(r_, x_) for x_ in out_):
+                        out_.append(r_)
+                try:
+                    return set(out_)
+                except TypeError:
+                    return out_  # unhashable model objects: kept as a list without duplicates (membership and iteration behave alike)
+            return rows
         if isinstance(e, ast.Lambda):
             return ("lambda", e, env, m)
         if isinstance(e, ast.NamedExpr) and isinstance(e.target, ast.Name):
@@ -518,7 +669,14 @@ class Interp:
         if isinstance(a, (RegSym, Obj, Imm)) or isinstance(b, (RegSym, Obj, Imm)):
             if isinstance(a, Imm) and isinstance(b, Imm):
                 return a.value == b.value
-            return a is b
+            if a is b:
+                return True
+            if isinstance(a, Obj) and isinstance(b, Obj) and a.cls is not None and a.cls is b.cls and a.kind == b.kind == "obj" and self.repo.is_dataclass(a.cls) \
+                    and self.repo.lookup(a.cls, "__eq__") is None:
+                # two instances of a dataclass are equal when their fields are (the generated __eq__)
+                names = [f[0] for f in self.repo.dataclass_fields(a.cls)]
+                return all(self._eq(self.getattr(a, n_), self.getattr(b, n_)) for n_ in names)
+            return False
         if isinstance(a, np.ndarray) or isinstance(b, np.ndarray):
             return bool(np.array_equal(a, b))
         return a == b
@@ -556,7 +714,7 @@ class Interp:
         raise AnalysisError(f"circuit evaluation: operator in {src(node)[:60]}")
 
     def global_name(self, name, m):
-        if name in ("int", "float", "str", "tuple", "list", "bool", "dict"):
+        if name in ("int", "float", "str", "tuple", "list", "bool", "dict", "set", "frozenset", "bytes"):
             return ("external", "builtins." + name)
         r = self.repo.resolve(m, name)
         if r is None:
@@ -635,7 +793,10 @@ class Interp:
                 for fname, ann, val, k in self.repo.dataclass_fields(o.cls):
                     if fname == attr:
                         return self.eval(val, {}, k.module) if val is not None else None
-                if self.repo.lookup(o.cls, attr) is not None:
+                r = self.repo.lookup(o.cls, attr)
+                if r is not None:
+                    if any(getattr(d, "id", getattr(d, "attr", None)) == "property" for d in r[1].decorator_list):
+                        return self.call_function(r[0].module, r[1], [], {}, self_obj=o)  # a computed property is computed
                     return ("boundmethod", o, attr)
             raise AnalysisError(f"circuit evaluation: attribute {attr} of {o!r}")
         if isinstance(o, Imm):
@@ -669,6 +830,8 @@ class Interp:
             return ("external", "RegisterName.Q")
         if isinstance(o, (str, list, set, dict)) and not attr.startswith("_") and hasattr(o, attr):
             return getattr(o, attr)
+        if o is None or isinstance(o, (bool, int, float)):
+            raise EvalRaise("AttributeError", f"{type(o).__name__} has no attribute {attr} ({src(node)[:50] if node is not None else ''})")
         raise AnalysisError(f"circuit evaluation: attribute {attr} of {type(o).__name__} ({src(node)[:50] if node is not None else ''})")
 
     EXTERNAL = {
@@ -776,7 +939,11 @@ class Interp:
         if isinstance(t, tuple) and t[0] == "external":
             n = t[1].split(".")[-1]
             if n == "int":
-                return isinstance(o, int) and not isinstance(o, bool)
+                return isinstance(o, int)  # as in Python, a bool is an int
+            if n == "bool":
+                return isinstance(o, bool)
+            if n in ("set", "frozenset", "bytes"):
+                return isinstance(o, {"set": set, "frozenset": frozenset, "bytes": bytes}[n])
             if n == "float":
                 return isinstance(o, float)
             if n == "str":
@@ -863,7 +1030,7 @@ class Interp:
         if c.name == "Immediate":
             v = args[0] if args else kwargs.get("value")
             return Imm(v)
-        if c.name == "Register" and c.module.name.endswith("operand"):
+        if c.name == "Register" and c.module.name.endswith("operand") and not getattr(self.sc, "plain_registers", False):
             r = RegSym(f"R{len(self.sc.fresh)}")
             return r
         if self.ev.is_enum(c):
@@ -909,6 +1076,11 @@ class Interp:
             self.sc.recorded.append(("future." + name, o, args, kwargs))
             return None
         if o.cls is not None:
+            # a method the rule models itself is modelled on every object of the repository's classes, not only on `self`
+            if name in getattr(self.sc, "method_overrides", {}):
+                return self.sc.method_overrides[name](o, *args, **kwargs)
+            if name in self.sc.overrides:
+                return self.sc.overrides[name](*args, **kwargs)
             r = self.repo.lookup(o.cls, name)
             if r is not None:
                 return self.call_function(r[0].module, r[1], args, kwargs, self_obj=o)
